@@ -105,6 +105,7 @@ type HarnessResult struct {
 	WallS       float64        `json:"wall_s"`
 	failSeen    map[string]int
 	incSeen     map[string]int
+	rawSamples  [][]inputRec
 }
 
 type workItem struct {
@@ -695,6 +696,9 @@ func (e *Explorer) done(r pathResult) {
 		if len(res.Notes) < 12 {
 			res.Notes = append(res.Notes, n)
 		}
+	}
+	if r.sample != nil && len(res.rawSamples) < 2 {
+		res.rawSamples = append(res.rawSamples, r.sample)
 	}
 	if r.sample != nil && len(res.Samples) < 4 {
 		res.Samples = append(res.Samples, map[string]interface{}{"path": "pass", "inputs": renderInputs(r.sample)})
